@@ -21,7 +21,7 @@ BUDGET = {"quick": 240, "thorough": 800}
 
 TEXTS = {
     K.INT: ["5", "0", "9", "77", "-3", "abc", "", " 7", "007", "+5"],
-    K.HEX: ["1f", "0x2", "zz", "0X10", "-1", "", "+5", " 2a"],
+    K.HEX: ["1f", "0x2", "zz", "0X10", "-1", "", "+5", " 2a", "0x9"],
     K.FLOAT: ["2.5", "5", "1,5", "nan", "1e1", ""],
     K.STRING: ["", "p", 'q"t', " sp "],
 }
@@ -93,9 +93,9 @@ def jobs(tier, seed, excluded=()):
     rng = random.Random(seed)
     dom = Dom(int_max=-1, int_cands=["7", "3"], str_mode="cand", str_cands=["p"], hex_cands=["0x1f"], float_cands=["0.25"])
     if tier == "quick":
-        trees, nact, tmo, budget = ["T15", "T09", "T08", "T06", "F:menuconfig/kconfigs/Kconfig.pilot_all_scalars"], 2, 150, 2
+        trees, nact, tmo, budget = ["T15", "T09", "T08", "T06", "E_range_cond", "F:menuconfig/kconfigs/Kconfig.pilot_all_scalars"], 2, 150, 2
     else:
-        trees, nact, tmo, budget = ["T15", "T09", "T08", "T06", "T07", "T03", "T04"] + ["F:menuconfig/kconfigs/Kconfig." + x for x in ("pilot_all_scalars", "pilot_choice", "pilot_submenu", "indirect_sets", "float", "warning")], 3, 500, 3
+        trees, nact, tmo, budget = ["T15", "T09", "T08", "T06", "T07", "T03", "T04", "E_range_cond", "E_range_bound_dep"] + ["F:menuconfig/kconfigs/Kconfig." + x for x in ("pilot_all_scalars", "pilot_choice", "pilot_submenu", "indirect_sets", "float", "warning")], 3, 500, 3
     out = []
     for tid in trees:
         nn = len(list(ST.build(tid).node_iter()))
